@@ -12,16 +12,16 @@ claimed = {
  "C05": ("exploration", "5/C05", "seeded search over byte streams x segmentations x injected transport errors against the real frame.Reader; oracles: totality, progress (<= n+1 calls), chunking independence, span = frame, resynchronisation on clean streams",
          "samples of an unbounded input/segmentation space",
          "deterministic simulation with fault injection: simulated transport (segmentation, zero-length reads, EOF, injected read error)"),
- "C06": ("fault_enumeration", "5/C06", "every single-bit alteration of a reference-signed frame (enumerated) and forged / unsigned / v1 / wrong-key / re-stamped frames through the real keyed reader with a reference SHA-256 verdict; signed output of streamwriter.Writer and frame.Writer.WriteMessage verified by the reference; a real node with an incoming key (any outgoing version) under the C10 event-stream oracles; node-level outgoing signing verified in the C09/C11 wire logs",
+ "C06": ("fault_enumeration", "5/C06", "every single-bit alteration of a reference-signed frame (enumerated) and forged / unsigned / v1 / wrong-key / re-stamped / padded-after-signing frames, authentic frames with canonical and non-canonical payloads, through the real keyed reader with a reference SHA-256 verdict; signed output of streamwriter.Writer and frame.Writer.WriteMessage verified by the reference; a real node with an incoming key (any outgoing version) under the C10 event-stream oracles; node-level outgoing signing verified in the C09/C11 wire logs",
          "frames and keys are sampled; per frame the single-bit tampering space is enumerated completely",
          "deterministic simulation with fault injection: tampering link; fake clock for the writer side"),
- "C07": ("exploration", "5/C07", "timestamp histories (boundary alphabet, window edges, random 48-bit) of correctly signed frames through the real keyed reader, compared frame by frame with an executable replay-window model; outgoing timestamps checked against the fake clock (drawn start date, drawn pauses) for formula and monotonicity",
+ "C07": ("exploration", "5/C07", "timestamp histories (boundary alphabet, window edges, random 48-bit) of correctly signed frames through the real keyed reader, compared frame by frame with an executable replay-window model; outgoing timestamps checked against the fake clock (drawn start date, drawn pauses; in a third of the runs stalls at every scheduling point, clock reads included) for formula and monotonicity",
          "histories are sampled; clock steps backwards are not injected (the synctest clock is monotone)",
          "deterministic simulation: reordering/duplicating link as timestamp histories, executable reference model, fake clock"),
  "C10": ("exploration", "5/C10", "whole-system simulation of a real node with 1..3 (thorough: 5) endpoints of all seven kinds, scripted peers (valid / damaged frames, junk, chunking, FIN / RST / unplug, data handed over together with EOF, returning datagram peers, lossy datagram networks), consumer paces, concurrent writers, stream requests, short idle timeouts, node close; seeded search over schedules x chunkings x fault sequences; per-channel event-stream oracles (open first, close last, frames = valid frames sent, in order, attributed)",
          "samples of the schedule/fault space; simulated sockets/serial stand in for kernels",
          "deterministic simulation with fault injection: cooperative scheduler in a synctest bubble over an instrumented build"),
- "C20": ("fault_enumeration", "5/C20", "for each generated entry sequence: every cut offset of the file (crash) and every (failing write, accepted prefix) pair is enumerated against the real tlog.Writer/Reader; byte-exact file format against the reference",
+ "C20": ("fault_enumeration", "5/C20", "for each generated entry sequence: every cut offset of the file (crash) and every (failing write, accepted prefix) pair is enumerated against the real tlog.Writer/Reader; byte-exact file format against the reference; timestamps from year 1 to 9999",
          "entry sequences are sampled; per file the crash points are enumerated completely",
          "deterministic simulation with fault injection: simulated disk (short/failed writes, crash = byte prefix)"),
 }
@@ -29,25 +29,25 @@ claimed.update({
  "C08": ("exploration", "5/C08", "relays of the real frame.Reader/Writer (1..4 hops, with/without dialect) and chains of 1..3 real router nodes (WriteFrameExcept idiom, optional edit + FixFrame with an outgoing key) carrying canonical and non-canonical encodings; per hop: header preserved, bytes identical without a dialect / for canonical payloads, otherwise reference-valid checksum and same decoded message",
          "frames are sampled; router chains use custom transports only",
          "deterministic simulation: byte links + whole-node chains under the cooperative scheduler, reference codec as oracle"),
- "C09": ("exploration", "5/C09", "write histories beyond the 256 wrap-around with rejected writes interleaved through streamwriter.Writer / frame.Writer.WriteMessage, the initialisation matrix, and whole-node runs (1..6 channels, concurrent writers, heartbeats, stream requests, forwarded frames, flow control) with a per-link header/sequence checker over reference-decoded wire logs",
+ "C09": ("exploration", "5/C09", "write histories beyond the 256 wrap-around with rejected writes interleaved through streamwriter.Writer / frame.Writer.WriteMessage, the initialisation matrix, and whole-node runs (1..6 channels of all seven endpoint kinds, concurrent writers, heartbeats, stream requests, forwarded frames, flow control) with a per-link header/sequence checker over reference-decoded wire logs",
          "histories and schedules are sampled",
          "deterministic simulation: byte link histories + whole-node fan-out under the cooperative scheduler"),
- "C11": ("exploration", "5/C11", "whole-node simulation with 1..6 stable channels + churning peers, 1..4 concurrent writers issuing the six Write* calls (stable, churning, closed, foreign (second real node) and nil targets), flow control; fan-out model over wire logs: exactly once, isolation, per-writer FIFO, whole frames, header provenance",
+ "C11": ("exploration", "5/C11", "whole-node simulation with 1..6 stable channels of all seven endpoint kinds + churning peers, a flaky custom link, 1..4 concurrent writers issuing the six Write* calls (stable, churning, closed, foreign (second real node) and nil targets), flow control; fan-out model over wire logs: exactly once, isolation, per-writer FIFO, whole frames, header provenance",
          "samples of the schedule space; flow control (<= 40 outstanding items per channel) is part of the scenario",
          "deterministic simulation: cooperative scheduler over an instrumented build, executable fan-out model"),
- "C12": ("exploration", "5/C12", "Close issued at a drawn instant of drawn situations over all 7 endpoint kinds (consumer running/stopped/never started, peers not reading, hanging/refused dials, failing serial opens, disconnecting peers, concurrent writers through and after the close) and Initialize failing at a drawn endpoint; oracles: Close returns within max(write, read timeout)+1 s, no live node task, nothing bound/open, custom transport closed once, Events() closed, writes return",
+ "C12": ("exploration", "5/C12", "Close issued at a drawn instant of drawn situations over all 7 endpoint kinds (consumer running/stopped/never started, peers not reading, links unplugged while the writer is stuck, hanging/refused dials, failing and slow serial opens, disconnecting peers, concurrent writers through and after the close) and Initialize failing (or given a doubtful configuration) at a drawn endpoint; oracles: Close returns within max(write, read timeout)+1 s, no live node task, nothing bound/open, custom transport closed once, Events() closed, writes return",
          "samples of the schedule/fault/close-point space; leak detection relies on the engine knowing every goroutine the instrumented package starts and on the simulated network's bookkeeping",
          "deterministic simulation with fault injection: close-point sampling under the cooperative scheduler"),
- "C13": ("exploration", "5/C13", "sick channels (transport Write blocking forever / until a drawn instant / until the write deadline, failing once / permanently from the k-th call) and unencodable items at drawn positions; healthy channels flow-controlled and checked for exactly-once, failing channels for closed-or-delivering by write attempts, stalled channels for the 64+2+writers backlog bound, events from every channel",
+ "C13": ("exploration", "5/C13", "sick channels (transport Write blocking forever / until a drawn instant / until the write deadline, failing once / permanently from the k-th call with a bare error or a non-timeout net.Error) and unencodable items at drawn positions; healthy channels flow-controlled and checked for exactly-once, failing channels for closed-or-delivering by write attempts, stalled channels for the 64+2+writers backlog bound, events from every channel",
          "samples of the fault/schedule space",
          "deterministic simulation with fault injection: write faults on simulated transports under the cooperative scheduler"),
- "C14": ("exploration", "5/C14", "fault plans of 2..5 sessions per endpoint kind (refused / hanging / failed attempts, EOF, RST, injected read error at the k-th read, silence with optional keep-alive at 0.9 idle periods); oracles: cause in the close event, first attempt immediate, >= 1 s between attempts and after the close event, one connection/channel at a time, fresh channel at quiescence, per-call deadlines from the transport log",
+ "C14": ("exploration", "5/C14", "fault plans of 2..5 sessions per endpoint kind (refused / hanging / failed attempts, EOF, RST, injected read error at the k-th read, silence with optional keep-alive at 0.9 idle periods or beginning in the middle of a frame); oracles: cause in the close event, first attempt immediate, >= 1 s between attempts and after the close event, one connection/channel at a time, fresh channel at quiescence, per-call deadlines from the transport log",
          "samples of the fault-sequence space; the reconnect delay is bounded (>= 1 s, fresh channel within 12 s), not mirrored from the code; custom and broadcast endpoints get no read faults (re-provide storm, see DESIGN.md)",
          "deterministic simulation with fault injection: read/connect faults on simulated transports, fake clock"),
  "C15": ("exploration", "5/C15", "the union of the node workloads plus close-while-opening, router and reuse workloads in a -race build under the same engine; the race detector is happens-before based and the engine's hand-offs are hidden from it, so unsynchronised access pairs are reported although execution is serialised",
          "samples of the schedule space; dynamic race detection only sees accesses that the workloads perform",
          "deterministic simulation under the Go race detector (engine invisible to it)"),
- "C16": ("exploration", "5/C16", "simulated minutes to hours on the fake clock with drawn heartbeat / dialect / stream-request configurations and arrival histories of ArduPilot and other heartbeats from several identities per channel; heartbeat instants exact in runs without stalls; stream-request model per (channel, system, component)",
+ "C16": ("exploration", "5/C16", "simulated minutes to hours on the fake clock with drawn heartbeat / dialect / stream-request configurations and arrival histories of ArduPilot and other heartbeats from several identities per channel (all seven endpoint kinds, several endpoints of one kind, senders sharing the node's system id); heartbeat instants exact in runs without stalls; stream-request model per (channel, system, component)",
          "samples of the configuration/history space; timing oracles are exact only without stall injection",
          "deterministic simulation on the fake clock with executable heartbeat and stream-request models"),
 })
@@ -74,7 +74,7 @@ m = {
  ],
  "checks": [],
  "not_applicable": [{"property_id": k, "reason": v} for k, v in sorted(na.items())],
- "notes": "Exit codes of every check: 0 held, 1 violation (VIOLATION line + replay file), 2 infrastructure. known_findings.json lists open and fixed findings. DESIGN.md explains the approach.",
+ "notes": "Exit codes of every check: 0 held, 1 violation (VIOLATION line + replay file that reproduced in a fresh process), 2 infrastructure only (engine error, build failure, a failure that does not replay). known_findings.json lists open and fixed findings. DESIGN.md explains the approach.",
 }
 for p in sorted(claimed):
     cat, ref_, text, note, tech = claimed[p]
